@@ -1,6 +1,21 @@
 PROP = {
     "level": "exploration",
     "stages": [("main", "c12", False, ()), ("race", "c12", True, ())],
-    "assumptions": ["draft"],
+    # the stated bound (every membership-consistent history of length <= 7 over J/A/L/K/F/S/T,
+    # receivers {a,b,c} up to renaming, max-receivers 1..3) is enumerated completely by the main
+    # stage of both tiers (thorough goes to length 8 for max 1..3 and 9 for max 1)
+    "exhaustive": True,
+    "assumptions": [
+        "the SnapshotSender is built by an export shim with the fields the repository's own newTestSender sets (maxRecv, receiverTTL, the three maps, now, exitFn, closeConn) plus logger, a real wsclient.Conn, ids, the progress map and the transferFn seam; events enter through handleEnvelope (as from the ReadLoop callback, one at a time) and cleanup()",
+        "events are delivered one at a time and the state is judged only at quiescence (sender.runTransfer.exit hits = transfers told to return, marker round trip through the same FIFO connection, stub starts >= TransferStart messages); overlapping deliveries (two transfers ending at the same instant) are not driven",
+        "membership-consistent histories: join only for a non-member, accept/leave only for a member; the duplicate-join class (same peer id joins again without leaving, which thruserv's last-write-wins hub permits) is sampled separately; accept from a non-member is not driven",
+        "receivers are interchangeable (peer ids are opaque map keys), so histories are enumerated up to renaming; three receivers, max-receivers 1..3",
+        "reference model: accept enqueues unless queued/transferring (after an ended transfer both 'enqueue again' and 'ignore' are accepted); ok -> DONE, error -> FAILED, left -> FAILED or DONE; idle cleanup may forget joined/ended receivers but not queued or transferring ones; statuses of receivers that merely joined are not judged",
+        "fake clock: +1 s per event, +6 min per cleanup tick, TTL 10 min; the stub transfer returns only when told (also after its context was cancelled, with ctx.Err() or nil)",
+    ],
 }
-META = {"technique": "draft", "text": "draft", "note": "draft"}
+META = {
+    "technique": "runtime monitor: real SnapshotSender driven event by event (stub transfer function, fake clock, real wsclient.Conn to a recording WebSocket endpoint), quiescence by hook counts, reference-model oracle after every prefix; exhaustive bounded histories + random walks; failing histories shrunk and keyed by their minimal shape; race-detector build as second regime",
+    "text": "Exploration with an exhaustively enumerated bounded part: every membership-consistent history of join / accept (repeatable) / leave / transfer-ok / transfer-fail / late return of a cancelled transfer / idle-cleanup tick over three receivers up to renaming, of length <= 7 (quick) or <= 8 and <= 9 for max 1 (thorough), for max-receivers 1..3, plus seeded random histories of length 9 / 12 (incl. a duplicate-join class), each on a fresh real SnapshotSender. After every event the queue, active slots, statuses, the stub transfers running with a live context and the TransferStart/TransferQueued messages seen at the WebSocket boundary are compared with a reference model: never more live transfers than max, no queued receiver while a slot is free, queue = acceptance order, one state per receiver, a leaver dequeued / cancelled / slot released, no start with a cancelled context, exactly one TransferStart per start. Decides the histories produced (sequential deliveries, quiescent states), not concurrent deliveries.",
+    "note": "Trusted: the reference model and quiescence rule in overlay/cmd/verifharness/c12.go, the export shim constructor (mirrors newTestSender), gorilla/websocket on loopback. A history is cut at its first refuting prefix (extensions of a refuted prefix are not explored). Not driven: the real transfer function (ICE/QUIC), overlapping event deliveries, more than three receivers.",
+}
